@@ -134,7 +134,7 @@ class C08:
                 try:
                     t_ = x.load.load_module_from_file_object(io.BytesIO(data), filename=fname, get_code=False)
                     o_ = x.disasm.get_opcode(t_[0], t_[4])
-                    cur = (tuple(t_[0][:2]), tuple(o_.version_tuple[:2]))
+                    cur = (tuple(t_[0][:2]), tuple(o_.version_tuple[:2]), bool(t_[4]) if not fname.endswith(("pypy38.pyc", "pypy39.pyc", "pypy310.pyc")) else "by-name")
                 except ImportError:
                     cur = "ImportError"
                 except Exception as e:
@@ -144,7 +144,8 @@ class C08:
                 res.evals += 1
                 if base is None:
                     base = cur
-                elif cur != base or (isinstance(cur, tuple) and cur[0] != cur[1]):
+                elif (cur[:2] != base[:2] if isinstance(cur, tuple) and isinstance(base, tuple) else cur != base) or (
+                        isinstance(cur, tuple) and (cur[0] != cur[1] or (cur[2] != "by-name" and cur[2] != base[2]))):
                     res.fail("C08|version-depends-on-file-name", "magic %d: named m%d.pyc -> %s, named %s -> %s (version, opcode table version)" % (
                         magic, magic, base, fname, cur))
                     break
